@@ -263,7 +263,11 @@ mutual
       have h1 := parseTerms_print fs g st .rpar rest (Or.inl rfl) hok.2 (by omega)
       simp only [printTerm, List.cons_append, List.nil_append, List.append_assoc]
       rw [parseTerm_constr]
-      simp [altConstr, kwTerm_eq, afterKeyword_hit, parseDecimal_natChars tag hok.1, h1, relabel]
+      have e1 : (natChars tag).takeWhile isDigit = natChars tag :=
+        takeWhile_all _ _ (natChars_all_digit tag)
+      have e2 : (natChars tag).dropWhile isDigit = [] :=
+        dropWhile_all _ _ (natChars_all_digit tag)
+      simp [altConstr, kwTerm_eq, afterKeyword_hit, e1, e2, parseDecimal_natChars tag hok.1, h1, relabel]
     | .case s bs => by
       intro f st rest hok hf
       simp [termOk] at hok
